@@ -337,6 +337,27 @@ def main(chk):
     chk.floor('writers of self.dt', len(writers), 4)
     chk.floor('methods reachable from solve', len(reach), 10)
     rule_clamp(chk, cls)
+    # "is this requested time the time we are at" is judged with the one absolute tolerance self._epsilon everywhere - the vectorised dump test, the choice of the next time to
+    # land on and the too-small-step test must agree, otherwise a time is neither dumped now nor landed on later.  A closeness helper of the library (math.isclose,
+    # numpy.isclose / allclose) brings its own default *relative* tolerance (1e-9 resp. 1e-5 of t), so none is used in the stepping logic unless that is switched off
+    n_cmp, loose = 0, []
+    for mname, mfn in sorted(M.methods(cls_raw).items()):
+        for c_ in M.calls(mfn):
+            nm_ = (M.call_name(c_) or '').split('.')[-1]
+            if nm_ in ('isclose', 'allclose'):
+                kw_ = dict((k.arg, k.value) for k in c_.keywords)
+                rel_ = kw_.get('rel_tol', kw_.get('rtol'))
+                if not (isinstance(rel_, ast.Constant) and rel_.value == 0):
+                    loose.append((mname, c_))
+        for x in ast.walk(mfn):
+            if isinstance(x, ast.Compare) and '_epsilon' in U(x):
+                n_cmp += 1
+    chk.floor('comparisons against self._epsilon in Solver', n_cmp, 5)
+    chk.decide(not loose, 'dump-decision', 'one-absolute-tolerance', node=loose[0][1] if loose else cls_raw, file=SOL, func='Solver.%s' % (loose[0][0] if loose else 'solve'),
+               detail_bad='`%s` compares times with a library closeness test whose default relative tolerance is on top of the absolute one: a requested time within 1e-9*t (but more than '
+                          'epsilon) of the current time is taken for "now" by this test and for "still to come" by the epsilon tests next to it - it is neither written now nor landed on' % (
+                              U(loose[0][1])[:70] if loose else ''),
+               detail_ok='%d comparisons against self._epsilon, no library closeness test with a relative tolerance' % n_cmp)
     from verif_static import paths as PT
     dn = M.find_func(cls, '_dump_output_if_needed')
     dpaths = PT.enumerate_paths(M.docstring_stripped(dn.body))
@@ -346,6 +367,11 @@ def main(chk):
     ENDT = ('abs(self.t - self.tf) < self._epsilon', 'abs(self.tf - self.t) < self._epsilon')
     bad_pf = bad_at = bad_once = bad_early = None
     n_pf = n_at = 0
+    # a truth table over the two facts the decision rests on - PF: the iteration count is a multiple of pfreq, AT: a requested time has been reached - whatever way the
+    # method combines them (an `if` that sets a flag, `dump = dump or bool(any(...))`, one test, nested tests): on every path that is possible under an assignment of
+    # (PF, AT) output is written exactly when PF or AT holds
+    atoms = PT.Atoms({'PF': (list(PFREQ), []), 'AT': (list(AT_TIME), []), 'END': (list(ENDT), [])})
+    live = []
     for p_ in dpaths:
         if p_[-1].kind == 'raise':
             continue
@@ -359,17 +385,21 @@ def main(chk):
             continue
         if len(dumps) > 1:
             bad_once = bad_once or p_[dumps[1]].node
-        at_time = PT.took(p_, True, *AT_TIME) is not None
-        pf_t = PT.took(p_, True, *PFREQ) is not None
-        pf_f = PT.took(p_, False, *PFREQ) is not None
-        if at_time:
-            n_at += 1
-            if not dumps:
-                bad_at = bad_at or [repr(e)[:70] for e in p_ if e.kind == 'cond']
-        else:
-            n_pf += 1
-            if not (pf_t or pf_f) or bool(dumps) != pf_t:
-                bad_pf = bad_pf or [repr(e)[:70] for e in p_ if e.kind == 'cond']
+        live.append((p_, bool(dumps)))
+    for pf in (True, False):
+        for at in (True, False):
+            # (without requested times AT is false by definition: the paths that skip the whole block are possible only then)
+            poss = [(p_, d_) for p_, d_ in live if atoms.possible(p_, {'PF': pf, 'AT': at, 'END': False}) and
+                    not (at and PT.took(p_, False, 'len(self.output_at_times) > 0', 'len(output_at_times) > 0') is not None)]
+            for p_, d_ in poss:
+                if at:
+                    n_at += 1
+                    if not d_:
+                        bad_at = bad_at or [repr(e)[:70] for e in p_ if e.kind == 'cond']
+                else:
+                    n_pf += 1
+                    if d_ != pf:
+                        bad_pf = bad_pf or [repr(e)[:70] for e in p_ if e.kind == 'cond']
     chk.decide(n_pf > 0 and bad_pf is None, 'dump-decision', 'every-pfreq-th-iteration', node=dn, file=SOL, func='_dump_output_if_needed',
                detail_bad='away from the requested times output is not written exactly when count %% pfreq == 0 (path: %s)' % bad_pf, detail_ok='count % pfreq == 0')
     chk.decide(n_at > 0 and bad_at is None, 'dump-decision', 'at-requested-times', node=dn, file=SOL, func='_dump_output_if_needed',
